@@ -17,15 +17,30 @@ import re as _re
 from pathlib import Path as _Path
 
 
-def names(prefixes, exclude=()):
-    """harness names found in harness/src (incl. generated files) starting with one of the prefixes, minus excluded substrings;
-    used where a run must leave some harnesses of a family out (Kani has no exclude filter)"""
+def _all_harness_names():
     src = _Path(__file__).resolve().parent.parent / "harness" / "src"
     found = set()
-    for f in src.glob("*.rs"):
-        found |= set(_re.findall(r"\b(c\d\d[qtnkh]_[a-z0-9_]+)\b", f.read_text()))
-    out = sorted(n for n in found if any(n.startswith(p) for p in prefixes) and not any(x in n for x in exclude))
-    return out
+    texts = {f.name: f.read_text() for f in src.glob("*.rs")}
+    for t in texts.values():
+        found |= set(_re.findall(r"\b(c\d\d[qtnkh]_[a-z0-9_]+)\b", t))
+    # names built with paste from the shared type lists: macro_rules! CB { ... [<PFX $n>] ... }  +  crate::LIST!(CB);
+    lists = {}
+    for m in _re.finditer(r"macro_rules! (\w+) \{\s*\(\$cb:ident\) => \{\s*\$cb! \{(.*?)\}\s*\};\s*\}", texts.get("gen.rs", ""), _re.S):
+        lists[m.group(1)] = _re.findall(r"(?:^|;)\s*([a-z0-9_]+):", m.group(2))
+    for t in texts.values():
+        cbs = {}
+        for m in _re.finditer(r"macro_rules! (\w+) \{(?:(?!macro_rules!).)*?\[<(c\d\d[qtnkh]_[a-z0-9_]*) \$n>\]", t, _re.S):
+            cbs[m.group(1)] = m.group(2)
+        for m in _re.finditer(r"crate::(\w+)!\((\w+)\);", t):
+            if m.group(1) in lists and m.group(2) in cbs:
+                found |= {cbs[m.group(2)] + n for n in lists[m.group(1)]}
+    return {n for n in found if not n.endswith("_")}
+
+
+def names(prefixes, exclude=()):
+    """harness names found in harness/src (incl. generated files and the paste-built ones) starting with one of the prefixes,
+    minus excluded substrings; used to batch runs and where a run must leave some harnesses of a family out"""
+    return sorted(n for n in _all_harness_names() if any(n.startswith(p) for p in prefixes) and not any(x in n for x in exclude))
 
 
 def std_runs(n, stubbing=False, heavy=False, **kw):
@@ -166,11 +181,11 @@ _C20_MORE = ["c01q_i64", "c01q_res_opt", "c01q_tup3", "c01q_arr_opt_3", "c01q_ve
 PROPS["C20"] = dict(
     runs=[
         # (error paths that chain descriptions make the hostile element-path count queries time out under chain-error: left to the no-std run)
-        dict(features=["c01", "c03", "c04"], cfg="std", filters={"quick": _C20_CORE + _C20_MORE, "thorough": names(["c01q_", "c03q_", "c04q_"], exclude=["vec_opt_max", "vec_bool_2p14", "derived_"])}),
-        dict(features=["c01", "c03", "c04"], cfg="chain", filters={"quick": _C20_CORE, "thorough": names(["c01q_", "c03q_", "c04q_"], exclude=["vec_opt_max", "vec_bool_2p14", "derived_"])}),
+        dict(features=["c01", "c03", "c04"], cfg="std", filters={"quick": _C20_CORE + _C20_MORE, "thorough": names(["c01q_", "c03q_", "c04q_"], exclude=["vec_opt_max", "vec_bool_2p14", "derived_", "_map_", "_set_"])}),
+        dict(features=["c01", "c03", "c04"], cfg="chain", filters={"quick": _C20_CORE, "thorough": names(["c01q_", "c03q_", "c04q_"], exclude=["vec_opt_max", "vec_bool_2p14", "derived_", "_map_", "_set_"])}),
         dict(features=["c01", "c03", "c04"], cfg="nostd", noext=True, filters={"quick": _C20_CORE, "thorough": ["c01q_", "c03q_", "c04q_"]}),
         dict(features=["c07", "c08", "c12"], cfg="std", stubbing=True, filters={"quick": ["c07q_ent_vec_opt_2", "c07q_ent_u32", "c07q_ent_string_2", "c07q_iow_vec_u16_3", "c08q_bytes", "c12q_ml_box_u64", "c12q_ml_vec_u32_2"],
-                                                               "thorough": ["c07q_ent_", "c07q_iow", "c08q_in_tup3", "c08q_in_vec_opt_2", "c08q_bytes", "c12q_ml_box", "c12q_ml_vec_u32_2", "c12q_ml_rc_arr", "c12q_tracker"]}),
+                                                               "thorough": names(["c07q_ent_"], exclude=["range_compact", "range_incl_compact", "compact_u", "map_", "derived_"]) + ["c07q_iow", "c08q_in_tup3", "c08q_in_vec_opt_2", "c08q_bytes", "c12q_ml_box", "c12q_ml_vec_u32_2", "c12q_ml_rc_arr", "c12q_tracker"]}),
         # decode outcomes under limits and through the shared byte buffer are part of "the accept/reject decision": same harnesses in the no-std configurations
         dict(features=["c08", "c12"], cfg="chain", stubbing=True, filters={"quick": ["c08q_bytes", "c12q_ml_box_u64", "c12q_ml_vec_u32_2", "c12q_ml_arc_u16"], "thorough": ["c08q_bytes", "c12q_ml_box", "c12q_ml_vec_u32_2", "c12q_ml_rc_arr", "c12q_ml_arc_u16", "c12q_tracker"]}),
         dict(features=["c08", "c12"], cfg="nostd", stubbing=True, filters={"quick": ["c08q_bytes", "c12q_ml_box_u64", "c12q_ml_arc_u16"], "thorough": ["c08q_bytes", "c12q_ml_box", "c12q_ml_rc_arr", "c12q_ml_arc_u16"]}),
